@@ -17,6 +17,7 @@ import (
 	channeltypes "github.com/cosmos/ibc-go/v11/modules/core/04-channel/types"
 	channeltypesv2 "github.com/cosmos/ibc-go/v11/modules/core/04-channel/v2/types"
 	commitmenttypes "github.com/cosmos/ibc-go/v11/modules/core/23-commitment/types"
+	solomachine "github.com/cosmos/ibc-go/v11/modules/light-clients/06-solomachine"
 	ibctm "github.com/cosmos/ibc-go/v11/modules/light-clients/07-tendermint"
 
 	"verif/harness/hx"
@@ -183,6 +184,56 @@ func c47Msgs(r *hx.Rng, o *hx.Out, q int) {
 		o.Emit("c47_msgv2", []any{uerr, in}, []any{c47Run(vb)}, in[0].(string))
 	}
 
+	// ---- 06-solomachine Misbehaviour.ValidateBasic, directly and inside MsgUpdateClient (fix 6331512)
+	sigJ := func(sd *solomachine.SignatureAndData) any {
+		if sd == nil {
+			return nil
+		}
+		return []any{hx.H(sd.Signature), hx.H(sd.Data), hx.H(sd.Path), hx.U(sd.Timestamp)}
+	}
+	genSig := func() *solomachine.SignatureAndData {
+		sd := &solomachine.SignatureAndData{Signature: r.Bytes(1 + r.Intn(3)), Data: r.Bytes(1 + r.Intn(3)), Path: []byte("p"), Timestamp: 1 + uint64(r.Intn(5))}
+		switch r.Intn(8) {
+		case 0:
+			return nil
+		case 1:
+			sd.Signature = nil
+		case 2:
+			sd.Data = nil
+		case 3:
+			sd.Path = nil
+		case 4:
+			sd.Timestamp = 0
+		}
+		return sd
+	}
+	emitMis := func(mis *solomachine.Misbehaviour, tag string) {
+		o.Emit("c47_solomis", []any{hx.U(mis.Sequence), sigJ(mis.SignatureOne), sigJ(mis.SignatureTwo)}, []any{c47Run(mis.ValidateBasic)}, tag)
+		cm, err := codectypes.NewAnyWithValue(mis)
+		if err != nil {
+			panic(err)
+		}
+		m := clienttypes.MsgUpdateClient{ClientId: "06-solomachine-0", ClientMessage: cm, Signer: c47Signer}
+		o.Emit("c47_msgclient", []any{"update", true, []any{len(cm.Value), []any{c47Run(mis.ValidateBasic)}}, hx.HS(m.ClientId)}, []any{c47Run(m.ValidateBasic)}, "update/solo-misbehaviour/"+tag)
+	}
+	// regression corpus: the former nil-dereference inputs
+	emitMis(&solomachine.Misbehaviour{Sequence: 1}, "regression-nil-signatures")
+	emitMis(&solomachine.Misbehaviour{Sequence: 1, SignatureOne: &solomachine.SignatureAndData{Signature: []byte{1}, Data: []byte{2}, Path: []byte("p"), Timestamp: 1}}, "regression-nil-signature-two")
+	emitMis(&solomachine.Misbehaviour{Sequence: 1, SignatureTwo: &solomachine.SignatureAndData{Signature: []byte{1}, Data: []byte{2}, Path: []byte("p"), Timestamp: 1}}, "regression-nil-signature-one")
+	for i := 0; i < 40*q; i++ {
+		mis := &solomachine.Misbehaviour{Sequence: c47U64Z(r), SignatureOne: genSig(), SignatureTwo: genSig()}
+		tag := "random"
+		if mis.SignatureOne != nil && mis.SignatureTwo != nil {
+			switch r.Intn(4) {
+			case 0:
+				mis.SignatureTwo.Signature, tag = mis.SignatureOne.Signature, "equal-signatures"
+			case 1:
+				mis.SignatureTwo.Data, mis.SignatureTwo.Path, tag = mis.SignatureOne.Data, mis.SignatureOne.Path, "same-message"
+			}
+		}
+		emitMis(mis, tag)
+	}
+
 	// ---- client messages
 	cid := func() string {
 		if r.Chance(3, 4) {
@@ -249,21 +300,22 @@ func c47Msgs(r *hx.Rng, o *hx.Out, q int) {
 		}
 		o.Emit("c47_msgclient", in, []any{c47Run(vb)}, tag)
 	}
-	// witnesses of NoPanicMsgsFacts.msg_client_validate_basic_refuted, replayed on the real code:
-	// a MsgCreateClient whose client_state (resp. consensus_state) field is absent, as decoded from proto bytes
+	// regression corpus (always emitted): the former panic inputs of MsgCreateClient.ValidateBasic (fixed by
+	// e3d0037 / d71d2e9): client_state (resp. consensus_state) absent as decoded from proto bytes; chain id with
+	// a revision >= 2^64
 	{
 		bz, _ := proto.Marshal(&clienttypes.MsgCreateClient{Signer: c47Signer})
 		var m clienttypes.MsgCreateClient
 		if err := proto.Unmarshal(bz, &m); err != nil {
 			panic(err)
 		}
-		o.Emit("c47_msgclient", []any{"create", true, c47AnyJ(m.ClientState, true), c47AnyJ(m.ConsensusState, false)}, []any{c47Run(m.ValidateBasic)}, "witness-create/decoded-without-client-state")
+		o.Emit("c47_msgclient", []any{"create", true, c47AnyJ(m.ClientState, true), c47AnyJ(m.ConsensusState, false)}, []any{c47Run(m.ValidateBasic)}, "regression-create/decoded-without-client-state")
 		cs, _ := codectypes.NewAnyWithValue(c47TmClientState(hx.NewRng("fixed"), "chain-1"))
 		cs.GetCachedValue().(*ibctm.ClientState).TrustingPeriod = time.Hour
 		cs.GetCachedValue().(*ibctm.ClientState).LatestHeight = clienttypes.NewHeight(1, 10)
 		cs.GetCachedValue().(*ibctm.ClientState).ProofSpecs = commitmenttypes.GetSDKSpecs()
 		m2 := clienttypes.MsgCreateClient{ClientState: cs, Signer: c47Signer}
-		o.Emit("c47_msgclient", []any{"create", true, c47AnyJ(cs, true), nil}, []any{c47Run(m2.ValidateBasic)}, "witness-create/nil-consensus-state")
+		o.Emit("c47_msgclient", []any{"create", true, c47AnyJ(cs, true), nil}, []any{c47Run(m2.ValidateBasic)}, "regression-create/nil-consensus-state")
 		// and the ParseChainID panic reached through MsgCreateClient -> ClientState.Validate
 		bad := ibctm.NewClientState("a-18446744073709551616", ibctm.DefaultTrustLevel, time.Hour, 2*time.Hour, time.Second,
 			clienttypes.NewHeight(1, 10), commitmenttypes.GetSDKSpecs(), []string{"upgrade", "upgradedIBCState"})
@@ -271,7 +323,7 @@ func c47Msgs(r *hx.Rng, o *hx.Out, q int) {
 		if err != nil {
 			panic(err)
 		}
-		o.Emit("c47_msgclient", []any{"create", true, c47AnyJ(m3.ClientState, true), c47AnyJ(m3.ConsensusState, false)}, []any{c47Run(m3.ValidateBasic)}, "witness-create/chain-id-revision-overflow")
+		o.Emit("c47_msgclient", []any{"create", true, c47AnyJ(m3.ClientState, true), c47AnyJ(m3.ConsensusState, false)}, []any{c47Run(m3.ValidateBasic)}, "regression-create/chain-id-revision-overflow")
 	}
 }
 
